@@ -61,7 +61,7 @@ CLAIMED.update({
 })
 CLAIMED.update({
     "C17": ("c17_groups_parse, c17_last_wins, c17_order_independent (same last occurrence per flag => same configuration, for arbitrary IP/path oracles), c17_invalid_value_is_error, c17_unknown_flag_is_error, "
-            "c17_missing_value_is_error, c17_dup_bound, c17_defaults, c17_dir_fallback, c17_help for the server parser; the client parser has the same model shape and is tied by correspondence only. "
+            "c17_missing_value_is_error, c17_dup_bound, c17_defaults, c17_dir_fallback, c17_help for the server parser; c17_client_groups_parse, c17_client_mode_and_file_last_wins, c17_client_defaults for the client parser. "
             "Config::new / ClientConfig::new run on permutations of flag-group subsets (long/short spellings, invalid values, unknown flags, dangling flags, help) and are compared with the model and with an independent last-occurrence evaluator.", "5/C17",
             "Lean 4 proof (fold over flag groups, last-occurrence characterisation) + permutation correspondence on both parsers"),
 })
